@@ -57,6 +57,53 @@ def _runs(p, mode):
     return res
 
 
+def _interval_checks(P, p, n):
+    """intervals, blocks and monotone runs against the definitional scanners"""
+    # ---- intervals
+    intervals = ref.proper_intervals(p)
+    blocks = P.block_decomposition()
+    want_blocks = [[] for _ in range(n)]
+    for start, length in intervals:
+        want_blocks[length].append(start)
+    if [sorted(b) for b in blocks] != want_blocks or len(blocks) != n:
+        return BAD("block_decomposition", {"got": blocks, "want": want_blocks})
+    if P.all_intervals() != blocks or P.decomposition() != blocks:
+        return BAD("block_alias", {})
+    if P.is_simple() != (not intervals):
+        return BAD("is_simple", {"got": P.is_simple()})
+    mb = P.maximum_block()
+    if intervals:
+        ml = max(length for _, length in intervals)
+        want_mb = (ml, min(s for s, length in intervals if length == ml))
+    else:
+        want_mb = (0, 0)
+    if tuple(mb) != want_mb or P.maximal_interval() != mb or P.simple_location() != mb:
+        return BAD("maximum_block", {"got": mb, "want": want_mb})
+    want_pats = {ref.std(p[s : s + length]) for s, length in intervals}
+    got_pats = P.block_decomposition_as_pattern()
+    if {tuple(x) for x in got_pats} != want_pats or len(got_pats) != len(want_pats):
+        return BAD("block_decomposition_as_pattern", {})
+    # ---- monotone blocks and contractions
+    for mode, meth, contract in (
+        ("mono", P.monotone_block_decomposition, P.contract_bonds),
+        ("asc", P.monotone_block_decomposition_ascending, P.contract_inc_bonds),
+        ("desc", P.monotone_block_decomposition_descending, P.contract_dec_bonds),
+    ):
+        runs = _runs(p, mode)
+        if list(meth(True)) != runs or list(meth(with_ones=True)) != runs:
+            return BAD("monotone_blocks_" + mode + "_with_ones", {"got": list(meth(True)), "want": runs})
+        long_runs = [r for r in runs if r[1] > r[0]]
+        if list(meth()) != long_runs or list(meth(False)) != long_runs:
+            return BAD("monotone_blocks_" + mode, {"got": list(meth()), "want": long_runs})
+        c = contract()
+        wantc = ref.std(tuple(p[s] for s, _ in runs))
+        if not _valid(c, len(runs)) or tuple(c) != wantc:
+            return BAD("contract_" + mode, {"got": list(c), "want": list(wantc)})
+    if P.monotone_quotient() != P.contract_bonds() or list(P.all_monotone_intervals()) != list(P.monotone_block_decomposition()):
+        return BAD("monotone_quotient", {})
+    return None
+
+
 def check_perm(case):
     p = tuple(case)
     n = len(p)
@@ -143,48 +190,10 @@ def check_perm(case):
             return BAD(name + "_lib_reassembly", {})
     if P.sum_decomposable() != P.is_sum_decomposable() or P.skew_decomposable() != P.is_skew_decomposable():
         return BAD("decomposable_alias", {})
-    # ---- intervals
+    bad = _interval_checks(P, p, n)
+    if bad:
+        return bad
     intervals = ref.proper_intervals(p)
-    blocks = P.block_decomposition()
-    want_blocks = [[] for _ in range(n)]
-    for start, length in intervals:
-        want_blocks[length].append(start)
-    if [sorted(b) for b in blocks] != want_blocks or len(blocks) != n:
-        return BAD("block_decomposition", {"got": blocks, "want": want_blocks})
-    if P.all_intervals() != blocks or P.decomposition() != blocks:
-        return BAD("block_alias", {})
-    if P.is_simple() != (not intervals):
-        return BAD("is_simple", {"got": P.is_simple()})
-    mb = P.maximum_block()
-    if intervals:
-        ml = max(length for _, length in intervals)
-        want_mb = (ml, min(s for s, length in intervals if length == ml))
-    else:
-        want_mb = (0, 0)
-    if tuple(mb) != want_mb or P.maximal_interval() != mb or P.simple_location() != mb:
-        return BAD("maximum_block", {"got": mb, "want": want_mb})
-    want_pats = {ref.std(p[s : s + length]) for s, length in intervals}
-    got_pats = P.block_decomposition_as_pattern()
-    if {tuple(x) for x in got_pats} != want_pats or len(got_pats) != len(want_pats):
-        return BAD("block_decomposition_as_pattern", {})
-    # ---- monotone blocks and contractions
-    for mode, meth, contract in (
-        ("mono", P.monotone_block_decomposition, P.contract_bonds),
-        ("asc", P.monotone_block_decomposition_ascending, P.contract_inc_bonds),
-        ("desc", P.monotone_block_decomposition_descending, P.contract_dec_bonds),
-    ):
-        runs = _runs(p, mode)
-        if list(meth(True)) != runs or list(meth(with_ones=True)) != runs:
-            return BAD("monotone_blocks_" + mode + "_with_ones", {"got": list(meth(True)), "want": runs})
-        long_runs = [r for r in runs if r[1] > r[0]]
-        if list(meth()) != long_runs or list(meth(False)) != long_runs:
-            return BAD("monotone_blocks_" + mode, {"got": list(meth()), "want": long_runs})
-        c = contract()
-        wantc = ref.std(tuple(p[s] for s, _ in runs))
-        if not _valid(c, len(runs)) or tuple(c) != wantc:
-            return BAD("contract_" + mode, {"got": list(c), "want": list(wantc)})
-    if P.monotone_quotient() != P.contract_bonds() or list(P.all_monotone_intervals()) != list(P.monotone_block_decomposition()):
-        return BAD("monotone_quotient", {})
     # ---- shadow and covers
     kids = P.children()
     want_kids = {ref.delete_point(p, i) for i in range(n)}
@@ -391,6 +400,11 @@ def check_light(case):
         return BAD("light_is_strongly_simple", {"perm": list(p), "got": P.is_strongly_simple(), "want": strongly})
     if P.is_sum_decomposable() != ref.is_sum_decomposable(p) or P.is_skew_decomposable() != ref.is_skew_decomposable(p):
         return BAD("light_decomposable", {"perm": list(p)})
+    bad = _interval_checks(P, p, n)
+    if bad:
+        bad.kind = "light_" + bad.kind
+        bad.detail = dict(bad.detail or {}, perm=list(p))
+        return bad
     return OK(simple, "simple" if simple else "not_simple", key="light" + str(p))
 
 
